@@ -361,7 +361,7 @@ func checkC09(c *Check) {
 	// re-create, with the old tokens, a session that a logout removed while the round trip was in flight
 	if c.ID == "C09" {
 		importObls(c, "C01", checkC01, "C09.R4", func(o *Obligation) bool {
-			return strings.HasPrefix(o.Key, "C01.R2/refresh-result-is-a-new-object") || (strings.HasPrefix(o.Key, "C01.R2/allow/") && strings.Contains(o.Why, "refresh helper summary"))
+			return strings.HasPrefix(o.Key, "C01.R2/refresh-result-is-a-new-object") || strings.HasPrefix(o.Key, "C01.R2/allow/") // round 9: every OK, not only the one after a refresh, answers from what this check read from the store or obtained from the token endpoint — an OK served from anything else (a table of refreshes in flight) cannot see a removal
 		})
 	}
 
